@@ -262,4 +262,20 @@ CHECKS["C31"] = dict(
     design_ref="DESIGN.md §4 C31",
 )
 
+CHECKS["C03"] = dict(
+    category='exploration',
+    technique='Hypothesis-generated statement programs vs. an independent chain-of-scopes reference interpreter, alpha-renaming metamorphic check, exhaustive two-identifier non-aliasing enumeration, differential across 4 environments',
+    text='About 10k generated programs per quick run (120k thorough) over a shared 6-name pool built from if/for/else/loop filter/recursive/break/continue/set/block set/namespace/with/macro/call/filter constructs, each rendered on 3 data dicts in the default, async, sandboxed and unoptimized environments: all renderings must match the reference interpreter on the decided subset (incl. error family), and each program re-rendered after a random bijective renaming into ASCII, Python-keyword, generated-code-like (l_0_x, t_1, context, ...), dunder and NFKC-stable Unicode identifiers must give identical output; 21.7k (quick) to 260k (thorough) enumerated ordered identifier pairs x 12 two-name program shapes check that no two distinct spellings share a variable. 8/8 non-equivalent scoping mutants killed; found F31 independently.',
+    note="The interpreter's reading of the documented scoping rules; declined and counted classes: F38 (a nested scope reading a name the enclosing scope assigns only later ignores the outer binding - listed known finding), F1 (NFKC-unstable identifiers alias - known), and shapes the docs leave undefined (break/continue in buffering blocks, macros as values, ...); depth <=5/6, <=60 statements.",
+    design_ref="DESIGN.md §4 C03",
+)
+
+CHECKS["C10"] = dict(
+    category='exploration',
+    technique='differential over rendering entry points + validity predicate for buffered chunking on Hypothesis-generated template sets',
+    text='For about 6.7k (112k thorough) DictLoader sets (G-stmt programs alone, interleaved with include/import/from-import, or as block bodies of 2-3 level extends chains) with data chosen so that some pieces are empty or non-ASCII, in a sync and an async environment: generate, stream, buffered streams with sizes 2..8, dump to path / BytesIO / StringIO / write-only object with 11 codec and error-handler pairs incl. BOM codecs, make_module, __html__, template.module, render_async, generate_async, make_module_async must all equal render, and every buffered chunk except the last must combine exactly `size` non-empty pieces of generate(). 7/7 mutants killed incl. reverting F39.',
+    note='generate() defines the pieces and render the reference text, so a bug common to all entry points is invisible here (C02-C05 cover that); when render raises, all entry points must raise the same exception type.',
+    design_ref="DESIGN.md §4 C10",
+)
+
 NOT_YET = "check not built yet in this session (see DESIGN.md §8 for the order of work)"
